@@ -799,33 +799,37 @@ c14_protocol_big! {c14_protocol_split_terminator_str_big, Op::SplitTerminator}
 c14_protocol_big! {c14_protocol_rsplit_terminator_str_big, Op::RSplitTerminator}
 
 // ---------------------------------------------------------------------------
-// spec adequacy: the protocol reference vs the real str::split / rsplit (char delimiters)
+// spec adequacy: the protocol reference vs the real str::split / rsplit.  The pattern is a closure
+// matching exactly one char: same documented result as the `char` pattern, but std walks
+// `char_indices` instead of the word-at-a-time memchr, which CBMC cannot afford six times in a
+// row (C06's module ties the direct `char` pattern on shorter strings).
 
-harness! {
-    /// kind=bounded tier=thorough bound="spec adequacy: ref_split_seq/ref_rsplit_seq vs str::split/rsplit with char delimiters, string<=5 bytes"
-    #[kani::unwind(9)]
-    fn c14_spec_vs_std_char(s) {
-        let hs = BStr::<5>::any(s);
-        let c = s.char();
-        let h = hs.as_str();
-        let hb = h.as_bytes();
-        let mut tmp = [0u8; 4];
-        let db = c.encode_utf8(&mut tmp).as_bytes();
-        let occ = occurrences::<5, 4>(hb, db);
-        let q = ref_split_seq::<5>(hb.len(), db.len(), &occ);
-        let r = ref_rsplit_seq::<5>(hb.len(), db.len(), &occ);
-        let mut k = 0;
-        for p in h.split(c) {
-            chk!(s, k < q.n && is_subslice_at(hb, p.as_bytes(), q.a[k], q.b[k]), "SPEC.ref_split_seq.piece_eq_std_split_char");
-            k += 1;
+macro_rules! c14_spec_char {
+    ($name:ident, $refseq:ident, $stdfn:ident, $o:literal) => {
+        harness! {
+            /// kind=bounded tier=thorough bound="spec adequacy: the protocol reference sequence vs the real std iterator with a closure pattern matching exactly one char (any char), string<=4 bytes"
+            #[kani::unwind(8)]
+            fn $name(s) {
+                let hs = BStr::<4>::any(s);
+                let c = s.char();
+                let h = hs.as_str();
+                let hb = h.as_bytes();
+                let mut tmp = [0u8; 4];
+                let db = c.encode_utf8(&mut tmp).as_bytes();
+                let occ = occurrences::<4, 4>(hb, db);
+                let q = $refseq::<4>(hb.len(), db.len(), &occ);
+                let mut it = h.$stdfn(|x: char| x == c);
+                let mut k = 0;
+                while k < 6 {
+                    let e = if k < q.n { Some((q.a[k], q.b[k])) } else { None };
+                    chk!(s, match (it.next(), e) { (Some(p), Some((a, b))) => is_subslice_at(hb, p.as_bytes(), a, b), (None, None) => true, _ => false }, $o);
+                    k += 1;
+                }
+                cov!(s, q.n == 3 && db.len() == 2 && hb.len() == 4, "SPEC.cover.char2_three_pieces");
+                cov!(s, q.n == 5, "SPEC.cover.five_pieces");
+            }
         }
-        chk!(s, k == q.n, "SPEC.ref_split_seq.count_eq_std_split_char");
-        let mut k = 0;
-        for p in h.rsplit(c) {
-            chk!(s, k < r.n && is_subslice_at(hb, p.as_bytes(), r.a[k], r.b[k]), "SPEC.ref_rsplit_seq.piece_eq_std_rsplit_char");
-            k += 1;
-        }
-        chk!(s, k == r.n, "SPEC.ref_rsplit_seq.count_eq_std_rsplit_char");
-        cov!(s, q.n == 3 && db.len() == 2 && hb.len() == 5, "SPEC.cover.split_char2_three_pieces");
-    }
+    };
 }
+c14_spec_char! {c14_spec_split_char, ref_split_seq, split, "SPEC.ref_split_seq.eq_std_split_char"}
+c14_spec_char! {c14_spec_rsplit_char, ref_rsplit_seq, rsplit, "SPEC.ref_rsplit_seq.eq_std_rsplit_char"}
